@@ -72,6 +72,9 @@ def check_width_carried(ctx, rule: str, fi: FuncInfo, sources: Sequence[str], mi
             ctx.violation(rule, construct, f"width {short(w)} of the constructed Circuit does not derive from the source circuit's width ({'/'.join(sources)})", where)
 
 
+FLATTEN_RETURNS = False  # set by check.run_views while the canonical view is evaluated (experiment: SA_FLATTEN_CANON_RETURNS=1)
+
+
 def returned_exprs(func: ast.AST) -> List[ast.AST]:
     out = []
     for n in body_walk(func):
@@ -79,6 +82,17 @@ def returned_exprs(func: ast.AST) -> List[ast.AST]:
             out.append(n.value)
         elif isinstance(n, (ast.Yield,)) and n.value is not None:
             out.append(n.value)
+    if FLATTEN_RETURNS:
+        flat: List[ast.AST] = []
+        for r in out:
+            stack = [r]
+            while stack:
+                e = stack.pop()
+                if isinstance(e, ast.IfExp):
+                    stack += [e.orelse, e.body]
+                else:
+                    flat.append(e)
+        return flat
     return out
 
 
